@@ -178,7 +178,7 @@ fn enum_seqs(alpha: &[u8], maxlen: usize, minlen: usize) -> Vec<Vec<u8>> {
 }
 
 pub fn gen(tier: &str, rng: &mut Rng, out: &mut Vec<String>) {
-    let n = if tier == "thorough" { 300_000 } else { 10_000 };
+    let n = if tier == "thorough" { 500_000 } else { 10_000 };
     for i in 0..n {
         match i % 10 {
             8 => gen_uk(rng, out),
@@ -187,9 +187,9 @@ pub fn gen(tier: &str, rng: &mut Rng, out: &mut Vec<String>) {
         }
     }
     if tier == "thorough" {
-        // exhaustive small scope: all p (1..=4), t (0..=7) over {a,b}, k 0..=5; texts grouped per (p, k)
-        let ps = enum_seqs(b"ab", 4, 1);
-        let ts = enum_seqs(b"ab", 7, 0);
+        // exhaustive small scope: all p (1..=5), t (0..=8) over {a,b}, k 0..=5; texts grouped per (p, k)
+        let ps = enum_seqs(b"ab", 5, 1);
+        let ts = enum_seqs(b"ab", 8, 0);
         for p in &ps {
             for k in 0..=5usize {
                 for (ci, chunk) in ts.chunks(32).enumerate() {
